@@ -296,8 +296,25 @@ def scoped_oracle(run: Run, G, s, sc):
         a = T.run_ops(G, small, fx=FX, oracle=False)
         b = T.run_ops(G, small, fx=FX, oracle=False, scope="reference")
         d2 = first_result_difference(a, b) or d
-        run.count("oracle", SCOPE_DIFF_SIG)
-        run.fail(SCOPE_DIFF_SIG, "after an exception left a `with state.auto_fork(m)` block (and was caught), the history no longer "
+        sig = SCOPE_DIFF_SIG
+        o_exp, o_obs = d2["expected"], d2["observed"]
+        if isinstance(o_exp, dict) and o_exp.get("op", [""])[0] in ("revert", "revmask"):
+            k = o_exp["op"][1]
+            if o_exp["out"][0] == "done" and o_obs["out"][0] == "err":
+                sig += ":revert-refused"
+            elif o_exp["out"][0] == "err" and o_obs["out"][0] == "done":
+                sig += ":revert-accepted"
+            # end the replay with a read whose value differs: the proposal that should have been reverted is still there (or vice versa)
+            for n in reversed(G.order):
+                a2 = T.run_ops(G, small + [["get", k, n]], fx=FX, oracle=False)
+                b2 = T.run_ops(G, small + [["get", k, n]], fx=FX, oracle=False, scope="reference")
+                if a2.events[-1][0] != b2.events[-1][0]:
+                    small = small + [["get", k, n]]
+                    d2 = dict(expected=dict(revert=o_exp["out"], then_read=dict(node=n, out=list(b2.events[-1][0][2]))),
+                              observed=dict(revert=o_obs["out"], then_read=dict(node=n, out=list(a2.events[-1][0][2]))))
+                    break
+        run.count("oracle", sig)
+        run.fail(sig, "after an exception left a `with state.auto_fork(m)` block (and was caught), the history no longer "
                  "returns what it returns under the documented scoping of the mode switch: a later revert is refused / accepted "
                  "differently and the values read afterwards are those of other independent values (the fork bookkeeping of the "
                  "samplers' proposals is silently switched)",
@@ -613,12 +630,33 @@ def replay(run: Run, path: str):
     bad = [m for m in s.mismatches if "mask" not in m["taint"]]
     for m in bad[:3]:
         print(f"STALE after step {m['step']}: state {m['state']} node {m['node']}: read {m['observed']} but a fresh state gives {m['expected']}")
-    r = run.vm_bad_indices("replay", HEADER, CASE_TYPE, [s.coq_case()], checker())
+    scope_bad = False
+    if is_scoped(s):
+        print("  trace (one entry per primitive event; 'seen' = auto_fork_type and _last_fork just inside / just after a block, or at a look):")
+        for obs, ok in s.events:
+            print("    ", list(obs)[0], json.dumps(list(obs)[1:], default=str))
+        for v in s.scope_violations:
+            scope_bad = True
+            print(f"SCOPE: after the block of step {v['step']} on state {v['state']} auto_fork_type is {v['observed']}, it was {v['expected']} before the block")
+        ref = T.run_ops(G, inp["ops"], fx=FX, oracle=False, scope="reference")
+        d = first_result_difference(s, ref)
+        if d is not None:
+            scope_bad = True
+            print(f"SCOPE: with the documented scoping (previous mode always put back) event {d['event']} is {d['expected']}, this tree gives {d['observed']}")
+        elif ref.events != s.events:
+            scope_bad = True
+            print("SCOPE: the bookkeeping (auto_fork_type / _last_fork) differs from the documented scoping")
+        r = run.vm_bad_indices("replay", SHEADER, SCASE_TYPE, [s.coq_scase()], schecker())
+    else:
+        r = run.vm_bad_indices("replay", HEADER, CASE_TYPE, [s.coq_case()], checker())
+    for a in s.alias_violations:
+        scope_bad = True
+        print(f"ALIAS: the clone made at step {a['step']} shares with its source: {a['shared']}")
     print(f"model (fx = {'true' if FX else 'false'}, {SEM[MIX]}) agrees with the implementation on this history:", r == [])
     if fx != CLAIMED_FX:
         print("the theorems of Props/C01.v are about fx = true: they do not speak about this tree")
     if mix != CLAIMED_MIX:
         print("the tie of Props/C01.v is made with xsem_where: this tree does not select in State.revert(subset)")
-    wrong = bool(bad or r or fx != CLAIMED_FX or mix != CLAIMED_MIX)
+    wrong = bool(bad or r or scope_bad or fx != CLAIMED_FX or mix != CLAIMED_MIX)
     print("REPLAY", "FAILS" if wrong else "passes")
     return 1 if wrong else 0
